@@ -18,6 +18,18 @@ structure Node where
   sv : Int := 0
   /-- version set by a transaction carried by this block (takes effect in its child's result) -/
   txnv : Option Int := none
+  /-- identity of the block: (serial of the cand op that made its parent link, votes and body, height, timestamp) -/
+  key : Nat × Int × Int := (0, 0, 0)
+
+/-- the candidate built by the last `cand` op, kept for `sib` -/
+structure Built where
+  b : Cand Nat
+  vti : Nat
+  cls : String
+  nv : Option Int
+  pi : Nat
+  serial : Nat
+  med : Int
 
 /-- `ServiceManager.GetNextBlockVersion(result)`: the platform default (2) when the variable is unset -/
 def requiredVersion (sv : Int) : Int := if sv = 0 then 2 else sv
@@ -28,6 +40,7 @@ structure St where
   nodes : Array Node := #[]
   fin : Nat := 0
   serial : Nat := 0
+  last : Option Built := none
 
 def inI64 (v : Int) : Bool := -(2:Int)^63 ≤ v ∧ v < (2:Int)^63
 
@@ -73,6 +86,38 @@ def certOkFor (st : St) (vt : Nat) (cls : String) (prev : Blk Nat) (b : Cand Nat
 def nmapOf (st : St) : List (Blk Nat) :=
   (st.nodes.toList.zipIdx).filterMap (fun (nd, i) =>
     if nd.alive then some { id := i, height := nd.height, ts := nd.ts, nextVersion := requiredVersion nd.sv } else none)
+
+/-- import of a built candidate: verdict from the model, bookkeeping of the tree -/
+def judge (st : St) (bt : Built) : St × String :=
+  let b := bt.b
+  match st.nodes[bt.pi]? with
+  | none => (st, "bad-op")
+  | some P =>
+    let v := importBlock (certOkFor st bt.vti bt.cls) (nmapOf st) b
+    let out := s!"{v.toString} h={b.height} ts={b.ts} med={bt.med} P={P.height}/{P.ts}/v{requiredVersion P.sv}"
+    if v = .accept then
+      let key : Nat × Int × Int := (bt.serial, b.height, b.ts)
+      if st.nodes.any (fun nd => nd.key == key) then (st, out)   -- the very same block again
+      else
+        -- the new block's result is its parent's state after the parent's transactions
+        let par := st.nodes[b.prevID]?
+        let sv' : Int := match par with
+          | some q => (match q.txnv with | some k => k | none => q.sv)
+          | none => 0
+        ({ st with nodes := st.nodes.push { parent := b.prevID, height := b.height, ts := b.ts, alive := true,
+                                            sv := sv', txnv := bt.nv, key := key } }, out)
+    else (st, out)
+
+/-- `sib DTS DH VER` -/
+def doSib (st : St) (a : List String) : St × String :=
+  match st.last, a with
+  | some bt, [dtsS, dhS, verS] =>
+    match parseI64 dtsS, parseI64 dhS, parseI64 verS with
+    | some dts, some dh, some ver =>
+      let b := bt.b
+      judge st { bt with b := { b with ts := wrap64 (b.ts + dts), height := wrap64 (b.height + dh), version := ver } }
+    | _, _, _ => (st, "bad-op")
+  | _, _ => (st, "bad-op")
 
 def doCand (st : St) (a : List String) : St × String :=
   match a with
@@ -120,16 +165,8 @@ def doCand (st : St) (a : List String) : St × String :=
                 -- an id nobody has: `rand` previous id
                 let prevID : Nat := match prevIdx with | some k => k | none => 1000000000 + st1.serial
                 let b : Cand Nat := { version := ver, height := height, prevID := prevID, ts := ts, votes := votes }
-                let v := importBlock (certOkFor st vti cls) (nmapOf st) b
-                let out := s!"{v.toString} h={height} ts={ts} med={med} P={P.height}/{P.ts}/v{requiredVersion P.sv}"
-                if v = .accept then
-                  -- the new block's result is its parent's state after the parent's transactions
-                  let par := st.nodes[prevID]?
-                  let sv' : Int := match par with
-                    | some q => (match q.txnv with | some k => k | none => q.sv)
-                    | none => 0
-                  ({ st1 with nodes := st1.nodes.push { parent := prevID, height := height, ts := ts, alive := true, sv := sv', txnv := nv } }, out)
-                else (st1, out)
+                let bt : Built := { b := b, vti := vti, cls := cls, nv := nv, pi := pi, serial := st1.serial, med := med }
+                judge { st1 with last := some bt } bt
           | [] => (st, "bad-op")
         | _, _, _ => (st, "bad-op")
     | _, _, _ => (st, "bad-op")
@@ -185,6 +222,7 @@ def step (st : St) (toks : List String) : St × String :=
         | none => j
     doFin st (up st.nodes.size (st.nodes.size - 1))
   | "cand" :: rest => if !st.started then (st, "bad-op") else doCand st rest
+  | "sib" :: rest => if !st.started then (st, "bad-op") else doSib st rest
   | _ => (st, "bad-op")
 
 end Goloop.Driver.C07
